@@ -52,7 +52,20 @@ func ScanPngHeader(r io.ReadSeeker) (header meta.ExifHeader, err error) {
 		case "eXIf":
 			offset, _ := r.Seek(0, io.SeekCurrent)
 
-			return meta.NewExifHeader(utils.BigEndian, 8, uint32(offset), length, imagetype.ImagePNG), nil
+			// The chunk holds a TIFF structure: its header gives the byte order and
+			// the offset of the first directory.
+			if _, err = io.ReadFull(r, buf); err != nil {
+				return header, meta.ErrNoExif
+			}
+			byteOrder := utils.BinaryOrder(buf)
+			if byteOrder == utils.UnknownEndian {
+				return header, meta.ErrNoExif
+			}
+			if _, err = r.Seek(offset, io.SeekStart); err != nil {
+				return header, err
+			}
+
+			return meta.NewExifHeader(byteOrder, byteOrder.Uint32(buf[4:8]), uint32(offset), length, imagetype.ImagePNG), nil
 
 		default:
 			// Discard the chunk length + CRC.
